@@ -36,12 +36,12 @@ class Leaf:
     def __repr__(self):
         return f"<Leaf {self.kind} @{self.node.lineno} pc={self.pc}>"
 
-    def deep(self, expr, depth=8):
-        """expr with the store *and* the opaque bindings substituted (for display / comparison)."""
-        e = subst(expr, self.env)
+    def deep(self, expr, depth=8, stop=()):
+        """expr with the store *and* the opaque bindings substituted (for display / comparison); names in `stop` are kept."""
+        e = subst(expr, {k: v for k, v in self.env.items() if k not in stop})
         for _ in range(depth):
             names = {n.id for n in ast.walk(e) if isinstance(n, ast.Name) and isinstance(n.ctx, ast.Load)}
-            hit = {k: v for k, v in self.bind.items() if k in names}
+            hit = {k: v for k, v in self.bind.items() if k in names and k not in stop}
             if not hit:
                 break
             e = subst(e, hit)
